@@ -132,12 +132,14 @@ def run_remove_filedir(base: pathlib.Path, spelling: str, comps, keep_level):
     d.mkdir(parents=True, exist_ok=True)
     if keep_level is not None:
         (real.joinpath(*comps[:keep_level]) / "keep").write_text("x")
+    if not (base / "p" / "link").is_symlink():
+        os.symlink("node", base / "p" / "link")  # a second spelling of the same root, through a symbolic link
     rootstr = spelling.replace("@", str(base / "p")).replace("#", "node")
     calls = []
     orig = os.rmdir
 
     def rmdir(p, *a, **k):
-        q = os.path.normpath(os.fspath(p))
+        q = os.path.realpath(os.fspath(p))
         calls.append(q)
         if not q.startswith(str(real) + "/"):
             # never let a stray climb touch anything outside the scratch node: report "not empty"
@@ -156,7 +158,7 @@ def run_remove_filedir(base: pathlib.Path, spelling: str, comps, keep_level):
     return calls, str(real), root_exists
 
 
-SPELLINGS = ["@/#", "@/#/", "@//#", "@/./#", "@/#//", "@/#/."]
+SPELLINGS = ["@/#", "@/#/", "@//#", "@/./#", "@/#//", "@/#/.", "@/link", "@/link/", "@//link"]
 
 
 def explore_rmdir(ctx):
